@@ -13,7 +13,8 @@ import itertools
 import json
 
 PROPERTY = "C19"
-RULE = ("documents = a base selection tree over `type Query {a: Query b: Query c: Int d: Int}` (aliases x->a, y->b, z->c so "
+RULE = ("[selected_fields has its own direct oracle: listed path set = reference path set for maxdepth None/0/1/2/3 and fnmatch patterns; "
+        "the rule is also driven through graphql_blocking(validators=[rule]) with request variables] ""documents = a base selection tree over `type Query {a: Query b: Query c: Int d: Int}` (aliases x->a, y->b, z->c so "
         "equal response keys are always mergeable), distributed over inline fragments (typed/untyped) and named fragments: "
         "EXHAUSTIVE for two small base operations (every partition of every selection list into contiguous blocks, each "
         "block plain / inline / spread), SAMPLED for larger ones (1-3 operations, shared fragments, @skip/@include with "
@@ -22,9 +23,8 @@ RULE = ("documents = a base selection tree over `type Query {a: Query b: Query c
         "unknown name, ''}. non-trivial = distinct (document, variables) with spec depth >= 1 for some operation or with a "
         "fragment/directive at the top of an operation")
 ASSUMPTIONS = [
-    "variables are a name->bool map that binds every variable used in an @skip/@include condition (what coerce_variable_values "
-    "produces for a valid request); the raw-variables gap (defaulted variable omitted from the request) is exercised separately "
-    "and is the known finding Q1-vars",
+    "variables: the request supplies a bool for every REQUIRED directive variable; variables declared with a default may be omitted "
+    "(the specification is evaluated with what coerce_variable_values gives the operation: C19-Q1vars.patch makes the rule do the same)",
     "documents are valid (parsed by py_gql.lang.parse and accepted by the default validation rules; NoUnusedVariables is left out "
     "because defect V4 of the unchanged tree reports variables used through nested fragments as unused): fragments acyclic and defined, "
     "unique fragment names, @skip/@include conditions are Boolean literals or variables",
@@ -36,9 +36,11 @@ TRUSTED = [
     "generated document against the generator's own tree) and the Python reference depth (cross-checked against the Lean spec on every case)",
     "Lean `Doc.fuel`/`acyclic` are computed from the fragment weights; `acyclic` is compared with the NoFragmentCycles verdict of the real validator on every document",
 ]
-EXPLANATION = ("Theorems are proved for the rule AFTER proposed_fixes/C19-Q1.patch (model `rule`); the model of the unchanged rule "
-               "(`ruleOrig`) carries the machine-checked refutations. The correspondence compares the model of whichever rule the "
-               "tree under test contains (detected from the source: `_nesting_levels` present => fixed).")
+EXPLANATION = ("Theorems are proved for the code AFTER proposed_fixes/C19-Q1.patch (integrated), C19-Q1sf.patch (selected_fields descends "
+               "into merged same-key sub-selections) and C19-Q1vars.patch (variables passed to validators and coerced per operation): models "
+               "`rule`/`ruleV`/`selectedFields`. The models of the unchanged code (`ruleOrig`, `selectedFieldsOrig`, `rule` on raw variables) carry "
+               "the machine-checked refutations. The correspondence compares the model of whichever variant the tree under test contains "
+               "(detected from the source: `_nesting_levels`, `_selected_paths`, `coerce_variable_values` in max_depth.py).")
 
 LIMITS = list(range(0, 9))
 MAXDEPTHS = [0, 1, 2, 3]
